@@ -18,7 +18,7 @@ RULE = ("Part A (exhaustive): retry budget r in 1..4 (quick: 1..3); each transmi
         "after a delay from {0.05,1.0,1.95,2.05,3.0,3.95,4.05,6.5} s; V2 and V3; oracle = reference model of the retry loop "
         "(transmissions at 0,2,4,.. while nothing has arrived; return at the earliest arrival T*<2r with floor(T*/2)+1 "
         "byte-identical transmissions, else TimeoutError at 2r after exactly r) compared on transmission count, virtual return "
-        "time and outcome; with r=3 also Device._send_command()==[] and refresh() -> online False on timeout; a quarter of the patterns run with a configured connection lifetime that expires mid-exchange. Part B "
+        "time and outcome; with r=3 also Device._send_command()==[] and refresh() -> online False on timeout; a quarter of the patterns run with a configured connection lifetime that expires mid-exchange; on V3 a quarter of the patterns with unanswered transmissions have the device emit marker-free bytes instead of staying silent (no response by C04's skipping rule; the reference model is unchanged). Part B "
         "(exhaustive): every single fault and ordered pair from {drop, drop incl. handshake, error packet, garbage, peer close, peer reset (mid-exchange or while idle), "
         "connect refused, connect hangs, cancel at each protocol phase} x {V2,V3} x {fresh object, established connection}, "
         "followed by a clean exchange immediately or after a pause, at LAN level or through AirConditioner.refresh() (on V3 the user's single authenticate() call may have been abandoned during the 1 s settle pause after the handshake): faulty exchange ends within contract (frames / "
@@ -76,6 +76,10 @@ def check_retry(case: dict):
             idx["n"] += 1
             d = pattern[i] if i < len(pattern) else None
             if d is None:
+                if case.get("junk") and version == 3:
+                    # instead of staying silent the device emits bytes without a packet start marker (line noise, a debug
+                    # banner): they are no response, and must not disturb the answer to a later transmission
+                    return ("garbage", bytes.fromhex(case["junk"]))
                 return ("drop",)
             return ("answer", {"delay": d})
 
@@ -426,6 +430,8 @@ def run(ctx) -> None:
                 case = {"part": "A", "version": version, "r": r, "pattern": list(pattern)}
                 if n % 4 == 1:
                     case["lifetime"] = [2, 3, 4, 6][(n // 4) % 4]
+                if version == 3 and n % 4 == 3 and None in pattern:
+                    case["junk"] = ["00", "5a5a0111", "0011223344556677", "83", "ff" * 40][(n // 4) % 5]
                 ctx.check(case, lambda c: _run_one(ctx, c))
                 if r == 3 and (not ctx.quick or n % 4 == 0):
                     for level in ("device", "refresh"):
